@@ -104,7 +104,9 @@ def _record(issues_w, issues_e, rid, seed):
                     "hassev": isinstance(i.get("severity"), int),
                     "msg": i.get("message") if isinstance(i.get("message"), str) else "",
                     "hasoff": hasoff, "ci": int(i.get("char_index", 0)), "cie": int(i.get("char_index_end", 0)),
-                    "tspans": _occurrences(text, org) if (hasoff and org) else [], "ti": tindex[text]})
+                    "tspans": _occurrences(text, org) if (hasoff and org) else [], "ti": tindex[text],
+                    "quotes": re.findall(r"'([^']*)'", i.get("message") or "") + re.findall(r'"([^"]*)"', i.get("message") or "")
+                    if isinstance(i.get("message"), str) else []})
     # sorting: shuffled copy through sort_issues; rank the key fields independently
     rng = random.Random(seed)
     shuffled = list(issues_w)
@@ -151,6 +153,8 @@ def run_case(case):
             out = []
             for w in (True, False):
                 h = HedString(case["text"], schema, _G["dd"])
+                if case.get("expand_first"):      # history: the object's definitions are expanded before it is validated
+                    h.expand_defs()
                 eh = ErrorHandler(check_for_warnings=w)
                 eh.push_error_context(ErrorContext.HED_STRING, h)
                 out.append(h.validate(allow_placeholders=case["ph"], error_handler=eh))
@@ -190,6 +194,10 @@ def make_cases(ctx, n):
         if kind.startswith("string"):
             c["text"] = compose(rng)
             c["ph"] = bool(i % 2)
+            if kind == "string" and i % 18 == 0:
+                c["expand_first"] = True
+                if "Def/" not in c["text"]:
+                    c["text"] += ", " + rng.choice(["Def/Acc/3 hz", "Def/Acc/3 m-per-s^2", "Def/Plain/3"])
         else:
             cat = {"k%d" % j: compose(rng) for j in range(rng.randint(1, 3))}
             sc = {"trial_type": {"HED": cat}, "resp": {"HED": "Label/#, " + compose(rng)}}
